@@ -38,6 +38,8 @@ Comps == { St(<<U(8, "s")>>, "X"), St(<<U(8, "s")>>, "Y"), St(<<U(16, "s")>>, "X
            Un(<<U(8, "s"), Bool>>, "X"), Un(<<U(8, "s"), Bool>>, "Y"), St(<<Var(U(8, "s"), 3)>>, "X"), St(<<Var(U(8, "s"), 4)>>, "X"),
            St(<<Var(U(8, "s"), 35)>>, "X"), St(<<Var(U(8, "s"), 36), V(8)>>, "X"),   \* exact sets differ, approximations may not
            St(<<>>, "X"), St(<<V(8)>>, "X"),
+           \* equal min / max and equal residues modulo 8, different residues modulo 32
+           St(<<Var(U(8, "s"), 8)>>, "X"), St(<<Var(U(16, "s"), 4)>>, "X"),
            \* unions whose first variant is itself composed (its set is shared with the union's own operator tree)
            Un(<<Var(U(8, "s"), 2), U(32, "s"), U(16, "s")>>, "X"), Un(<<Fix(U(7, "s"), 3), U(32, "s")>>, "Y"),
            St(<<Var(U(8, "s"), 2), U(7, "s")>>, "Y") }
